@@ -58,7 +58,7 @@ REAL_STUB = {
     "real": ["jinja2 compiler/runtime/environment (async code paths)", "asyncio.Task/Future/timers", "CPython asyncgen hooks"],
     "stub": ["event loop scheduling + clock (SimLoop)", "data callables / async iterables (gated, event-counting)"],
 }
-BUDGET = {"quick": 28, "thorough": 600}
+BUDGET = {"quick": 35, "thorough": 600}
 MODES = ["clean", "early-aclose", "cancel", "data-raises", "sync-api", "sync-api-data-raises", "sync-api-early-close"]
 
 _setup_done = False
